@@ -14,8 +14,8 @@ Rec == ndJsonDeserialize(IOEnv.TRACE)
 Has(r, f) == f \in DOMAIN r
 SlackMs == 1500          \* scheduling slack allowed on every deadline
 
-VARIABLES l, bad
-vars == <<l, bad>>
+VARIABLES l, bad, badq      \* (badq: the verdict on the sequential properties at quiescence after a concurrent run)
+vars == <<l, bad, badq>>
 V(p, why) == [p |-> p, why |-> why]
 OK == V("", "")
 
@@ -185,22 +185,35 @@ ConcVerdict(r) ==
         ELSE OK
     ELSE OK
 
+\* the sequential properties at QUIESCENCE after a concurrent run (every thread joined, the merger stopped)
+QuiescentVerdict(r) ==
+    IF r.ev # "conc" \/ Has(r, "abort") \/ r.kind # "stress-final" \/ ~Has(r, "stats_bad") THEN OK
+    ELSE IF r.stats_bad # <<>> THEN V("C19", "after a concurrent run the counters differ from the files: " \o r.stats_bad[1])
+    ELSE IF r.index_bad # "" THEN V("C19", "after a concurrent run " \o r.index_bad)
+    ELSE IF r.after_restart # r.reads_before_close THEN V("C02", "after a concurrent run a restart reads differently from the store before the close")
+    ELSE IF r.after_restart_without_hints # r.after_restart THEN V("C12", "after a concurrent run recovery without hint files reads differently")
+    ELSE OK
+
 Verdict(r) ==
     CASE r.ev = "close" -> CloseVerdict(r)
       [] r.ev = "bg" -> BgVerdict(r)
       [] r.ev = "conc" -> ConcVerdict(r)
       [] OTHER -> OK
 
-Init == l = 2 /\ bad = OK
+Init == l = 2 /\ bad = OK /\ badq = OK
 Next == /\ l <= Len(Rec) /\ l' = l + 1
         /\ LET v == Verdict(Rec[l]) IN bad' = IF v.p = "drift" THEN (IF PrintT(<<"DRIFT", l, v.why>>) THEN OK ELSE OK) ELSE v
+        /\ badq' = QuiescentVerdict(Rec[l])
 Spec == Init /\ [][Next]_vars
 
 C04_ForcedSchedules == bad.p # "C04"
 C17_ClosedStore == bad.p # "C17"
+C19_AtQuiescence == badq.p # "C19"
+C02_AtQuiescence == badq.p # "C02"
+C12_AtQuiescence == badq.p # "C12"
 C18_BackgroundPolicy == bad.p # "C18"
 Accepted ==
     LET d == TLCGet("stats").diameter
     IN IF d = Len(Rec) THEN TRUE ELSE Print(<<"TRACE NOT ACCEPTED: consumed", d - 1, "of", Len(Rec) - 1>>, FALSE)
-ErrAlias == [line |-> l - 1, why |-> bad.why]
+ErrAlias == [line |-> l - 1, why |-> IF bad.p # "" THEN bad.why ELSE badq.why]
 =====================================================================================
